@@ -34,7 +34,7 @@ partial={
  "C15":" Reader failures after parsing (Hash/Verify) cannot occur: the parsed object reads from memory.",
  "C19":" Real goroutine schedules are not explored; Verify is not included.",
  "C03":" Re-parse digest equality, embedded-digest and verify-after-sign parts of the statement are not decided by this check.",
- "C01":" The per-position flip statement is covered only through equality with the specification's stream.",
+ "C01":" Per-position coverage is decided on the fixture image; for symbolic images it follows from the stream equality.",
  "C14":" PEM key/certificate readers are not covered (encoding/pem, crypto/x509 not interpreted); the static enumeration of exit call sites is not yet part of this check.",
 }
 checks=[]
